@@ -262,6 +262,9 @@ type vfRouteScenario struct {
 	RingCap    int         `json:"ring_cap,omitempty"` // initial capacity of the proxy-id ring (0 = the code's 1024)
 	Gated      []int       `json:"gated,omitempty"`    // target shards whose stream accepts a Send only on the action accept:k (slow target)
 	FaultKinds []string    `json:"fault_kinds,omitempty"`
+	// WMAdvance: the first watermark-only batch after the last scripted batch carries a high watermark this much
+	// above the last batch's (the source's watermark advances without tasks for this cluster)
+	WMAdvance int64 `json:"wm_advance,omitempty"`
 }
 
 type vfTaskRec struct {
@@ -302,6 +305,7 @@ type vfTgtStream struct {
 }
 
 type vfSrc struct {
+	wmAdvanced   bool
 	failNextOpen bool // the next stream the proxy opens towards this source shard fails (C08 scenarios)
 	idx          int
 	script       []vfBatch // what the source will send on the current pull stream (resumes from its acked level after a reconnect)
@@ -753,6 +757,12 @@ func (e *vfRouteExec) emit(s *vfSrc) {
 
 func (e *vfRouteExec) watermark(s *vfSrc) {
 	p := s.pull()
+	if e.sc.WMAdvance > 0 && !s.wmAdvanced && s.pos >= len(s.script) {
+		// the source's high watermark moves on without tasks for this cluster (tasks of other clusters, filtered
+		// tasks): once every scripted batch has been sent, the next watermark-only batch carries a higher value
+		s.wmAdvanced = true
+		s.curHigh += e.sc.WMAdvance
+	}
 	if s.curHigh > p.maxHigh {
 		p.maxHigh = s.curHigh
 	}
